@@ -1,8 +1,9 @@
 """C03, C04: htlc"""
 PROPS = {}
 
-_RULE = ("histories of 24-46 (thorough: 25-80) steps over one generated asset parameter set (three assets: not "
-         "time-limited / time-limited with a 20-90 s period / inactive; small limits so they are hit; two deputies), "
+_RULE = ("histories of 24-46 (thorough: 25-80) steps over one generated asset parameter set (three assets: two "
+         "active ones, usually both time-limited with different 20-90 s periods and time-based limits, and an inactive one, "
+         "sometimes time-limited; small limits so they are hit; two deputies), "
          "5 actors + the module accounts; steps = create (plain multi-coin, incoming, outgoing, duplicates, ~10% malformed), "
          "claim (right / wrong / malformed secret, by recipient or third party, repeated, after refund) and runs of block "
          "boundaries with per-block time steps (every block is executed; time locks 50..120, thorough: a share up to 34560); "
